@@ -243,8 +243,8 @@ class Oracle:
         self.stats = {"diagrams": 0, "elements": 0, "hidden": 0, "labels": 0, "ellipsis": 0, "wrapped": 0,
                       "markup_labels": 0, "refs": 0, "inexact_viewport": 0, "render_errors": 0}
 
-    def check(self, tag: str, dg, svg: str, replay: dict):
-        """-> abstract output for the correspondence (or None)"""
+    def check(self, tag: str, dg, svg: str, replay: dict, ref_keys: dict | None = None):
+        """-> abstract output for the correspondence (or None); ref_keys: finding key to use for certain dangling ids"""
         chk, st = self.chk, self.stats
         st["diagrams"] += 1
         try:
@@ -313,7 +313,7 @@ class Oracle:
         st["refs"] += len(sc["refs"])
         for r in sc["refs"]:
             if r not in sc["ids"]:
-                chk.violation(f"dangling:{r}", f"{tag}: reference #{r} has no definition in the document", replay)
+                chk.violation((ref_keys or {}).get(r, f"dangling:{r}"), f"{tag}: reference #{r} has no definition in the document", replay)
         if sc["dup"]:
             st.setdefault("documents_with_duplicate_ids", 0)   # not asked for by the property: counted only
             st["documents_with_duplicate_ids"] += 1
@@ -377,6 +377,36 @@ def reflect_domain():
             + [(3, c) for c in sorted(set(symnames) | set(ports))]
         dom[dc] = kcs
     return dom, set(ports)
+
+
+# the port kinds of Capella diagrams — the oracle's own list, not read from the code under check
+OWN_PORT_CLASSES = {"FIP", "FOP", "CP_IN", "CP_OUT", "CP_INOUT", "CP_UNSET", "PP"}
+
+
+def class_universe():
+    """every style class the renderer can meet: the Type.Class keys of every table of STYLES, the names of the symbol
+    registry, every string in a set-valued module attribute of svg/decorations.py (all_ports, component_ports,
+    function_ports, all_directed_ports, start_aligned, only_icons, ... whatever sets the module has), the oracle's
+    own port list.  -> (classes listed per diagram class incl. __GLOBAL__, classes that belong to every diagram class,
+    port-like classes, registered symbol names)"""
+    from capellambse.diagram import capstyle, _icons
+    from capellambse.svg import decorations
+    per_dc = {}
+    for dc, tbl in capstyle.STYLES.items():
+        per_dc[dc] = {k.split(".", 1)[1] for k in tbl if "." in k and k.split(".", 1)[1]}
+    deco_sets = {}
+    for name, v in vars(decorations).items():
+        if not name.startswith("_") and isinstance(v, (set, frozenset)) and v and all(isinstance(i, str) for i in v):
+            deco_sets[name] = set(v)
+    symnames = {k[:-6] for k in _icons._FACTORIES if k.endswith("Symbol") and k != "ErrorSymbol"}
+    portish = set(OWN_PORT_CLASSES)
+    for name, v in deco_sets.items():
+        if "port" in name.lower():
+            portish |= v
+    everywhere = set(per_dc.get("__GLOBAL__", ())) | symnames | portish
+    for v in deco_sets.values():
+        everywhere |= v
+    return per_dc, everywhere, portish, symnames, deco_sets
 
 
 SHAPES = {0: [(False, 0, 0), (True, 0, 0), (False, 1, 0), (True, 2, 0), (True, 0, 2), (False, 0, 1)],
@@ -520,8 +550,8 @@ def run(chk: lib.Check):
     def to_svg(dg) -> str:
         return mdiagram.SVGFormat.convert(mdiagram.convert_svgdiagram(dg))
 
-    def one(tag: str, dg, svg: str, replay: dict, nontrivial=True):
-        out = orc.check(tag, dg, svg, replay)
+    def one(tag: str, dg, svg: str, replay: dict, nontrivial=True, ref_keys=None):
+        out = orc.check(tag, dg, svg, replay, ref_keys)
         chk.note_case(tag, nontrivial=nontrivial)
         if out is None:
             return
@@ -619,6 +649,53 @@ def run(chk: lib.Check):
             one(tag, dg, svg, replay)
     chk.coverage["generated_pairs"] = len(pairs)
     chk.coverage["generated_combinations"] = ncombo
+
+    # ---------------- (b') single-element probe over the FULL cross product element kind x style class: every class of
+    # every table of STYLES, of the symbol registry and of every set of svg/decorations.py, drawn as box, symbol,
+    # box_symbol, edge and circle — under every diagram class that lists the class (and under no diagram class), the
+    # classes that are not tied to a diagram class (__GLOBAL__, symbols, decoration sets, ports) under every diagram class.
+    # The combinations the stock tables pair up are already in (b); these are the ones they do not.
+    per_dc, everywhere, portish, symnames, deco_sets = class_universe()
+    done = set(pairs)
+    nprobe = nexcused = 0
+    probe_hist: dict[str, int] = {}
+    for dc in dom:
+        classes = everywhere | per_dc.get(dc or "", set())
+        if dc is None:                       # without a diagram class: every class of every table
+            classes = classes.union(*per_dc.values())
+        classes = sorted(classes)
+        for cls in classes:
+            for kind in (0, 3, 4, 1, 2):
+                if (dc, kind, cls) in done:
+                    continue
+                es = {"kind": kind, "cls": cls, "ov": (nprobe + chk.seed) % OVERRIDES if not quick or nprobe % 3 == 0 else 0,
+                      "label": rand_label(rng) if kind in (0, 4) else "",
+                      "floats": [rand_label(rng)] if kind in (1, 3) else [],
+                      "ctx": []}
+                if kind == 3 and cls in portish:
+                    es["port"] = True
+                spec = {"dc": dc, "elems": [es], "x0": 10.0, "y0": 10.0}
+                replay = {"source": "generated-cross", "spec": spec}
+                kname = ["box", "edge", "circle", "symbol", "box_symbol"][kind]
+                try:
+                    dg = gen.build(spec)
+                    svg = to_svg(dg)
+                except Exception as e:  # noqa: BLE001
+                    orc.stats["render_errors"] += 1
+                    chk.violation(raise_key(kind, cls, e),
+                                  f"single {kname} of style class {cls!r} in diagram class {dc!r}: rendering raises {e!r}", replay)
+                    continue
+                # the one excuse: a symbol element whose class has no symbol and is not a port falls back to the Error
+                # symbol, whose id is not the referenced one (known finding probe:symbol-fallback)
+                ref_keys = None
+                if kind == 3 and cls not in portish and cls not in symnames:
+                    ref_keys = {cls + "Symbol": "probe:symbol-fallback"}
+                    nexcused += 1
+                nprobe += 1
+                probe_hist[kname] = probe_hist.get(kname, 0) + 1
+                one(f"cross:{dc}:{kind}:{cls}", dg, svg, replay, ref_keys=ref_keys)
+    chk.coverage["cross_product_probes"] = {"rendered": nprobe, "by_kind": probe_hist, "symbol_without_registered_symbol": nexcused,
+                                            "port_like_classes": sorted(portish), "decoration_sets": {k: len(v) for k, v in sorted(deco_sets.items())}}
 
     from capellambse.diagram import capstyle as _cs
     rx_classes = {oc.split(".", 1)[1] for tbl in _cs.STYLES.values() for oc, st in tbl.items() if "." in oc and ("rx" in st or "ry" in st)}
